@@ -274,6 +274,145 @@ def classify_history(case, info):
     return bool(nontrivial), labels
 
 
+# ------------------------------------------------------------- hand-over
+
+
+def run_handover(case, dest_factory=None):
+    """
+    case: {"pre": n messages logged before the threads start,
+           "loggers": [[message count, in_action], ...] one logging thread each,
+           "ndest": number of destinations in the first add, "plan": plan}
+    Workers: 0 = the thread doing the first add, 1.. = logging threads.
+    """
+    from .. import sched
+
+    saved = Logger._destinations
+    with sched.cooperative_locks(_output):
+        fresh = Destinations()
+    Logger._destinations = fresh
+    received = [[] for _ in range(case["ndest"])]
+    if dest_factory is None:
+        dests = [_make_dest(lst) for lst in received]
+    else:
+        dests = [dest_factory(i, lst) for i, lst in enumerate(received)]
+    logged = []
+    try:
+        for k in range(case.get("pre", 0)):
+            log_message(message_type="c12:pre", who="pre.%d" % k)
+            logged.append("pre.%d" % k)
+
+        def adder():
+            fresh.add(*dests)
+
+        def logger_thread(tid, count, in_action):
+            def run():
+                if in_action:
+                    with start_action(action_type="c12:act", who="t%d.start" % tid):
+                        for k in range(count):
+                            log_message(message_type="c12:m", who="t%d.%d" % (tid, k))
+                else:
+                    for k in range(count):
+                        log_message(message_type="c12:m", who="t%d.%d" % (tid, k))
+
+            return run
+
+        fns = [adder]
+        for tid, (count, in_action) in enumerate(case["loggers"]):
+            fns.append(logger_thread(tid, count, in_action))
+            if in_action:
+                logged.append("t%d.start" % tid)
+                logged.append("t%d.end" % tid)
+            for k in range(count):
+                logged.append("t%d.%d" % (tid, k))
+        s = sched.Scheduler(("eliot/_output.py",), case["plan"])
+        s.run(fns)
+    finally:
+        Logger._destinations = saved
+    return s, received, logged
+
+
+def _who(m):
+    if m.get("who"):
+        return m["who"]
+    if m.get("action_status") in ("succeeded", "failed"):
+        # end message of thread t's action: recover the thread from its task_uuid
+        return None
+    return None
+
+
+def check_handover(case):
+    from ..core import HarnessError
+
+    s, received, logged = run_handover(case)
+    for wid, e in s.errors.items():
+        if isinstance(e, HarnessError):
+            raise e
+        raise Violation("thread-raised", "worker %d raised %r" % (wid, e))
+    # map end messages to their action through task_uuid
+    for i, lst in enumerate(received):
+        uu = {}
+        for m in lst:
+            if m.get("who", "").endswith(".start"):
+                uu[m["task_uuid"]] = m["who"][:-6]
+        keys = []
+        for m in lst:
+            if m.get("who"):
+                keys.append(m["who"])
+            elif m.get("action_status") in ("succeeded", "failed"):
+                keys.append(uu.get(m["task_uuid"], "?") + ".end")
+            else:
+                keys.append("?" + str(m.get("message_type")))
+        counts = {}
+        for k in keys:
+            counts[k] = counts.get(k, 0) + 1
+        dup = sorted(k for k, c in counts.items() if c > 1)
+        missing = sorted(k for k in logged if k not in counts)
+        extra = sorted(k for k in counts if k not in logged)
+        require(not missing, "message-lost", lambda: "destination %d never received %r (received %r)" % (i, missing, keys))
+        require(not dup, "message-duplicated", lambda: "destination %d received %r more than once (received %r)" % (i, dup, keys))
+        require(not extra, "unexpected-message", lambda: "destination %d received unexpected %r" % (i, extra))
+    inside = s.switched_inside(("send", "add", "__call__", "stop_buffering", "write"))
+    return {"steps": s.steps, "switches": len(s.switches), "switch_inside": len(inside), "ndest": case["ndest"], "pre": case.get("pre", 0)}
+
+
+def classify_handover(case, info):
+    labels = ["ndest=%d" % info["ndest"], "loggers=%d" % len(case["loggers"]), "pre=%d" % min(info["pre"], 2), "switches=%d" % min(info["switches"], 6)]
+    if info["switch_inside"]:
+        labels.append("preempted-inside-send-or-add")
+    return info["switch_inside"] >= 1, labels
+
+
+def handover_strategy():
+    from .. import sched
+
+    return st.builds(
+        lambda pre, ndest, plan, loggers: {"pre": pre, "ndest": ndest, "plan": plan, "loggers": loggers},
+        st.integers(0, 2),
+        st.integers(1, 3),
+        sched.plans(max_segments=8, max_steps=25, workers=3),
+        st.lists(st.tuples(st.integers(1, 3), st.integers(0, 1)).map(list), min_size=1, max_size=2),
+    )
+
+
+def handover_enum_runner(mod, facet, tier, seed, shard, nshards, stats):
+    """One message vs. the first add: every single- and double-preemption plan."""
+    from ..core import enumerate_cases
+    from .. import sched
+
+    cases = []
+    depth = 40
+    for pre in (0, 1):
+        for ndest in (1, 2, 3):
+            for plan in sched.single_preemption_plans(2, depth):
+                cases.append({"pre": pre, "ndest": ndest, "plan": plan, "loggers": [[1, 0]]})
+    stride = 1 if tier == "thorough" else 3
+    for ndest in (2,):
+        for plan in sched.double_preemption_plans(2, depth, stride):
+            cases.append({"pre": 1, "ndest": ndest, "plan": plan, "loggers": [[1, 0]]})
+    stats.extra["enumerated_plans"] = len(cases)
+    enumerate_cases(mod, facet, cases, shard, nshards, stats, exhaustive=True)
+
+
 def ops_strategy():
     log = st.tuples(st.just("log"), st.integers(0, len(BURSTS) - 1), st.integers(0, 1)).map(list)
     small_log = st.tuples(st.just("log"), st.integers(0, 4), st.integers(0, 1)).map(list)
@@ -288,4 +427,6 @@ def ops_strategy():
 FACETS = [
     Facet("history", None, check_history, classify_history, quick=300, thorough=5000, runner=history_runner),
     Facet("history-list", ops_strategy, check_history, classify_history, quick=500, thorough=10000),
+    Facet("handover", handover_strategy, check_handover, classify_handover, quick=400, thorough=30000),
+    Facet("handover-enum", None, check_handover, classify_handover, quick=1, thorough=1, runner=handover_enum_runner),
 ]
